@@ -12,6 +12,8 @@
         <tree> = preorder cells  "L x y hw hh j cnt cum cx cy" | "N x y hw hh cum cx cy" + 4 subtrees
         (j = -1: empty leaf): run struct_okb / cum_consistent on that tree (the dump of the REAL
         tree) and print the exact centres of mass of `recom`.
+     A id slack n x0 y0 ...
+        the root box of the mean-centred constructor QuadTree(Y, N) in exact arithmetic (auto_root).
    stdout: "C id" first, then the records, then "END". *)
 open C18_model
 
@@ -163,6 +165,17 @@ let () =
           print_string "RC";
           List.iter (fun (a, b) -> Printf.printf " %s %s" (show_q a) (show_q b)) (coms (recom data order t));
           print_newline ();
+          print_string "END\n"
+        | "A" ->
+          (* A id slack n x0 y0 ... : the root box QuadTree(Y, N) chooses (exact arithmetic) *)
+          let id = next () in
+          let slack = nq () in
+          let n = nint () in
+          let data = List.init n (fun _ -> let a = nq () in let b = nq () in (a, b)) in
+          Printf.printf "C %s\n" id;
+          (match auto_root slack data (nat_of_int n) with
+           | None -> print_string "ROOT none\n"
+           | Some c -> Printf.printf "ROOT %s\n" (show_cell c));
           print_string "END\n"
         | _ -> ()
       end
